@@ -616,6 +616,20 @@ def run(tier, seed, replay=None):
                     emit("redirect", None, [dsp], [qspell], True, k + j, tail=tail, mode=0)
                     if spell.pathword(qspell):
                         emit(("command", "after")[(k + j) % 2], ("arg1", "arg2", "mid")[k % 3], [dsp], [qspell], True, k + j, tail=tail, mode=0)
+        # opaque prefixes: a word that starts with an expansion the hook cannot know ($X, ${X}, ~user) or - in argument position - is
+        # URL-shaped names no known file, whatever follows it: a rule for a concrete file never fires on it (for every spelling
+        # of the rule's file, with the cwd-relative spelling of the file after PREFIX/.. and after PREFIX/y/../..)
+        OPAQUE = ["$X", "${X}", "$X/y/..", "~bob", "~bob/y/..", "$HOME"]
+        for fi, (name, pth, fkind) in enumerate(files):
+            rels = [x for x in fams[name] if x.how in ("rel", "dotrel", "parent")]
+            P = spell.capped(fams[name], 12, fi) if rels else []
+            for k, pspell in enumerate(P):
+                for j, op in enumerate(OPAQUE):
+                    rel = rels[(k + j) % len(rels)]
+                    emit("redirect", None, [pspell], [op + "/../" + rel], False, k + j, mode=0)
+                    if spell.pathword(pspell):
+                        emit(("command", "after", "alias")[(k + j) % 3], spell.POSITIONS[(k + j) % len(spell.POSITIONS)], [pspell],
+                             [(op if (k + j) % 2 else "x://h") + "/../" + rel], False, k + j)
         # identity: no respelling claimed, but a rule written with exactly the command's own words fires on it - every short token
         # over the characters classification looks at, URL- / variable- / ~user- / option- / assignment-shaped words
         for k, t in enumerate(spell.identity_tokens()):
